@@ -42,6 +42,74 @@ def export(ck, tasks, timeout=1800):
     return lines
 
 
+# ---- hostile sources: the model's invariant FinallyExactlyOnce applied to runs the well-behaved sources of the model cannot
+# produce: (a) the source delivers its terminal notification inside subscribe() and THEN its subscribe function raises;
+# (b) the source's subscription raises from dispose() (at completion, at an error, at the subscriber's dispose()).
+# Whatever else happens (the exception may surface to the caller), the finally action has run exactly once when the
+# subscription is over.  using() is NOT part of it (see DESIGN 11.8: a raising upstream dispose() keeps using() from
+# disposing the resource - disposal faults are outside C40's quantifier, so it is noted, not judged).
+HOSTILE_OPS = ["finally_action", "finally_action_fluent", "do_finally", "do_finally_direct"]
+
+
+class _Late(Exception):
+    pass
+
+
+def hostile_run(opname, mode, end, nvals):
+    from reactivex import Observable
+    from reactivex import operators as ops
+    from reactivex.disposable import Disposable
+    from reactivex.operators import _do
+    from reactivex.subject import Subject
+    fin, out = [], []
+    subj = Subject()
+
+    def sub(o, scheduler=None):
+        if mode == "after_term":
+            for v in range(nvals):
+                o.on_next(v)
+            (o.on_completed() if end == "C" else o.on_error(rc.SrcErr("src")))
+            raise _Late("subscribe function raised after the terminal")
+        inner = subj.subscribe(o)
+
+        def d():
+            inner.dispose()
+            raise _Late("upstream dispose raised")
+        return Disposable(d)
+    xs = Observable(sub)
+    act = lambda: fin.append(len(out))
+    ys = {"finally_action": lambda: xs.pipe(ops.finally_action(act)), "finally_action_fluent": lambda: xs.finally_action(act),
+          "do_finally": lambda: xs.pipe(_do.do_finally(act)), "do_finally_direct": lambda: _do.do_finally(act)(xs)}[opname]()
+    escaped = []
+    try:
+        h = ys.subscribe(lambda v: out.append(["N", v]), lambda e: out.append(["E", type(e).__name__]), lambda: out.append(["C"]))
+        if mode == "disp_raises":
+            for v in range(nvals):
+                subj.on_next(v)
+            if end == "C":
+                subj.on_completed()
+            elif end == "E":
+                subj.on_error(rc.SrcErr("src"))
+            else:
+                h.dispose()
+    except _Late as ex:
+        escaped.append(str(ex))
+    return {"fin": fin, "out": out, "escaped": escaped}
+
+
+def hostile_cases():
+    return [(o, m, e, n) for o in HOSTILE_OPS for m, ends in (("after_term", "CE"), ("disp_raises", "CED")) for e in ends for n in (0, 1, 2)]
+
+
+def hostile_judge(case):
+    o, m, e, n = case
+    got = hostile_run(o, m, e, n)
+    if len(got["fin"]) != 1:
+        return {"engine": "hostile", "op": o, "mode": m, "end": e, "n": n, "reason_kind": "finally_count",
+                "reason": f"finally action ran {len(got['fin'])} times (FinallyExactlyOnce)", "observed": got}
+    return None
+
+
 def run(tier: str) -> int:
     ck = core.Check("C40", tier)
     k = 2
@@ -83,6 +151,15 @@ def run(tier: str) -> int:
         total += n
         for f in fails:
             rc.report(ck, groups, f, rc.judge40)
+    hc = hostile_cases()
+    for c in hc:
+        f = hostile_judge(c)
+        if f:
+            ck.fail(f)
+    total += len(hc)
+    ck.note("hostile_source_runs", {"runs": len(hc), "operators": HOSTILE_OPS,
+                                    "what": "terminal delivered inside subscribe() and then the subscribe function raises; upstream dispose() raises "
+                                            "at completion / error / dispose: FinallyExactlyOnce of OpsResource.tla applied to the recorded log"})
     ck.impl = total
     ck.nontrivial = sum(1 for scn, _ in groups if scn["ns"] == 2 or scn["flt"]["w"] != "none" or any(d != rc.NEVER for d in scn["dsp"]))
     ck.note("scenarios", len(groups))
@@ -105,7 +182,12 @@ def run(tier: str) -> int:
     return ck.finish()
 
 
-replay = rc.replay40
+def replay(rec) -> int:
+    if rec.get("engine") == "hostile":
+        f = hostile_judge((rec["op"], rec["mode"], rec["end"], rec["n"]))
+        print(f["reason"] if f else "replay: finally action ran exactly once")
+        return 1 if f else 0
+    return rc.replay40(rec)
 
 
 META = {
